@@ -255,7 +255,11 @@ func (c03) Gen(r *kern.Rng, tier string, idx int) *Trace {
 	}
 	tr := &Trace{Property: "C03", Family: "R-malformed", R: sc}
 	// truncation sweep: every byte of a small valid stream
-	if idx%16 == 0 {
+	every := 16
+	if tier == "thorough" {
+		every = 64 // every byte of each swept stream; fewer sweeps, more other runs
+	}
+	if idx%every == 0 {
 		sc.In = scen.InputSpec{Parts: []scen.StreamSpec{genStream(r, "flate", 3000, 0)}}
 		sc.Prior = nil
 		tr.Sweep, tr.Family = true, "R-trunc(every byte)"
@@ -815,7 +819,7 @@ type c15 struct{}
 func init() { register(c15{}) }
 
 func (c15) ID() string           { return "C15" }
-func (c15) Runs(tier string) int { return tierLen(tier, 400, 1600) }
+func (c15) Runs(tier string) int { return tierLen(tier, 400, 700) }
 
 func (c15) Gen(r *kern.Rng, tier string, idx int) *Trace {
 	pkg := []string{"flate", "flate", "gzip", "zlib"}[r.Intn(4)]
